@@ -1303,7 +1303,8 @@ impl<'t> Captures<'t> {
                 end: span.end,
             }),
             CapturesImpl::Fancy { text, ref saves } => {
-                let slot = i * 2;
+                // an index whose slot number does not even fit in usize is past the end
+                let slot = i.checked_mul(2)?;
                 if slot >= saves.len() {
                     return None;
                 }
